@@ -36,3 +36,58 @@ Example C07_example_datetime :
   datetime_out 2020 1 2 0 0 0 0 false false = DPos [2020; 1; 2] /\
   datetime_out 2020 1 2 3 0 0 0 true false = DKw [("year", KInt 2020); ("month", KInt 1); ("day", KInt 2); ("hour", KInt 3); ("tzinfo", KTz)]%string.
 Proof. split; vm_compute; reflexivity. Qed.
+
+(** ---- the collections (pretty_stdlib.py 258-344; Model/StdColl.v) ----------
+    OrderedDict, deque, defaultdict, Counter, ChainMap, mappingproxy,
+    exceptions and functools.partial are printed as the call their printer
+    hands to pretty_call_alt: [std_print] (compared with the implementation's
+    text on generated objects on every run).  For such a call everything
+    proved about calls holds (C17, C01_engine_output_evaluates); here:
+
+    (1) the printed text - at every width, ribbon, indent, with or without
+        sort_dict_keys, any max_seq_len >= 1 - evaluates to the call with
+        every argument evaluated (instance of C01_roundtrip_general); *)
+From PP Require Import Doc PyStr PyVal Printers PyExpr PyEval EvalRT StdColl StdCollProofs.
+Theorem C07_collections_evaluate :
+  forall (env : str -> option target),
+    env n_float = None -> env n_frozenset = None -> env n_set = None ->
+    forall (n : Z) (sort : bool), (1 <= n)%Z ->
+    forall x : stdval, evaluable env (std_print x) ->
+      eval env (expr_of (mkE None n sort) (std_print x) false) = Some (norm n sort (std_print x)).
+Proof. intros. now apply eval_expr_of. Qed.
+Print Assumptions C07_collections_evaluate.
+
+(** (2) the items of an OrderedDict and the elements of a deque come back in
+        their OWN order, sort_dict_keys or not, as long as nothing is cut; *)
+Theorem C07_ordereddict_order_kept :
+  forall (n : Z) (sort : bool) (c : clsinfo) (kvs : items),
+    (2 <= n)%Z -> (Z.of_nat (length kvs) <= n)%Z ->
+    norm n sort (std_print (SOrdered c kvs)) = std_print (SOrdered c (map (normpair n sort) kvs)).
+Proof. exact ordered_order_kept. Qed.
+Print Assumptions C07_ordereddict_order_kept.
+
+Theorem C07_deque_order_kept :
+  forall (n : Z) (sort : bool) (c : clsinfo) (els : list pyval) (ml : option Z),
+    (Z.of_nat (length els) <= n)%Z ->
+    norm n sort (std_print (SDeque c els ml)) = std_print (SDeque c (map (norm n sort) els) ml).
+Proof. exact deque_order_kept. Qed.
+Print Assumptions C07_deque_order_kept.
+
+(** (3) what the constructors make of that call ([std_rebuild]: OrderedDict
+        from pairs - a repeated key keeps its place and takes the last value -,
+        deque(iterable, maxlen) keeping the last maxlen elements, ChainMap()
+        holding one empty dict, the others storing their arguments) is the
+        printed object, for every object satisfying CPython's own invariants
+        (pairwise different keys under ==, len <= maxlen); a ChainMap without
+        content comes back as ChainMap(). *)
+Theorem C07_collections_rebuild :
+  forall (keq : pyval -> pyval -> bool) (x : stdval),
+    std_ok keq x -> std_rebuild keq (kind_of x) (std_print x) = Some (canon x).
+Proof. exact std_rebuild_print. Qed.
+Print Assumptions C07_collections_rebuild.
+
+Example C07_example_ordered :
+  let od := SOrdered (mkCls [79; 68]%N 4) [(VStr [98]%N, VInt 1); (VStr [97]%N, VInt 2)] in
+  std_ok (fun a b => match a, b with VStr s, VStr t => if list_eq_dec N.eq_dec s t then true else false | _, _ => false end) od /\
+  norm 1000 true (std_print od) = std_print od.
+Proof. split; vm_compute; reflexivity. Qed.
